@@ -24,6 +24,12 @@ class GetIncrements(Contract):
         V.env.update(T=T, a=a)
         return [a], {}
 
+    def to_case(self, vals, variant):
+        r = vals.get("r")
+        if not r or any(x is None for x in r):
+            return None
+        return {"kind": "array", "fn": "get_increments", "r": [float(x) for x in r]}
+
     def _inv(self, interp, frame, i):
         # after i iterations: increment_grid = [r_0, r_1-r_0, ..., r_i-r_{i-1}]
         ctx = interp.ctx
@@ -132,6 +138,12 @@ class GetBetweenRadii(Contract):
         V.env.update(T=T, a=a)
         return [a], ({"include_zero": lift(True)} if variant == "include_zero" else {})
 
+    def to_case(self, vals, variant):
+        r = vals.get("r")
+        if not r or any(x is None for x in r):
+            return None
+        return {"kind": "array", "fn": "get_between_radii", "r": [float(x) for x in r], "include_zero": variant == "include_zero"}
+
     def post(self, V, variant, env, outcome):
         ctx = V.ctx
         T = env["T"]
@@ -221,6 +233,7 @@ class TranslationParserInit(Contract):
         env = V.env
         a, b, step = z3.Real("a"), z3.Real("b"), z3.Real("step")
         num = z3.Int("num")
+        V.inputs.update(a=("real", a), b=("real", b), step=("real", step), num=("int", num))
         inner = lambda lit: Str(z=z3.Const("inner", StrSort), meta={"charset": NUMCHARS, "literal": lit})
         R = lambda x: Num(x, False)
         head = variant.split("(")[0]
@@ -269,6 +282,39 @@ class TranslationParserInit(Contract):
         obj = Obj(cls)
         env.update(n=n, intended=intended, obj=obj, text=text, lit=lit)
         return [obj, text], {}
+
+    def to_case(self, vals, variant):
+        f = lambda x: repr(float(x)) if x is not None else "1.0"
+        a, b, step, num = vals.get("a"), vals.get("b"), vals.get("step"), vals.get("num")
+        head = variant.split("(")[0]
+        if variant.endswith("(a,b)") and "linspace" in head:
+            text = f"{head}({f(a)}, {f(b)})"
+        elif "linspace" in head:
+            if num is None or num > 60:
+                return None
+            text = f"{head}({f(a)}, {f(b)}, {int(num)})"
+        elif variant == "range(stop)":
+            text = f"range({f(b)})"
+        elif variant == "range(a,b)":
+            text = f"range({f(a)}, {f(b)})"
+        elif "range" in head:
+            text = f"{head}({f(a)}, {f(b)}, {f(step)})"
+        elif variant == "literal-number":
+            text = f(a)
+        else:
+            lit = vals.get("lit")
+            if lit is None:
+                return None
+            body = ", ".join(f(x) for x in lit)
+            text = "[" + body + "]" if variant == "literal-list" else "(" + body + ("," if len(lit) == 1 else "") + ")"
+        cases = [{"text": text, "kind": "model"}]
+        # regularised variants of the same form (moderate values; one descending), see DESIGN 12.1
+        reg = {"linspace(a,b)": ["linspace(0.2, 1.5)", "linspace(1.5, 0.2)"], "linspace(a,b,num)": ["linspace(0.2, 1.5, 4)", "linspace(1.5, 0.2, 4)"],
+               "np.linspace(a,b,num)": ["np.linspace(0.2, 1.5, 4)", "np.linspace(1.5, 0.2, 4)"], "range(stop)": ["range(3)"],
+               "range(a,b)": ["range(1, 4)"], "arange(a,b,step)": ["arange(0.5, 3, 0.4)", "arange(3, 0.5, -0.4)"],
+               "np.arange(a,b,step)": ["np.arange(0.5, 3, 0.4)", "np.arange(3, 0.5, -0.4)"], "literal-number": ["0.3"],
+               "literal-list": ["[0.3, 0.1, 0.2]"], "literal-tuple": ["(0.3, 0.1, 0.2)"]}
+        return cases + [{"text": t, "kind": "model-regularised"} for t in reg.get(variant, [])]
 
     def post(self, V, variant, env, outcome):
         ctx = V.ctx
